@@ -456,7 +456,11 @@ class NDNApp:
         :type name: :any:`NonStrictName`
         """
         name = Name.normalize(name)
-        del self._prefix_tree[name]
+        try:
+            del self._prefix_tree[name]
+        except KeyError:
+            # Registered with ``func=None``: there is no callback to remove
+            pass
         try:
             _, _, reply = await self.express_interest(
                 make_command('rib', 'unregister', self.face, name=name), lifetime=1000)
